@@ -71,6 +71,9 @@ class Atoms:
         self.strict = strict
         self.unmapped: List[str] = []
         self.used: Set[str] = set()
+        # structural evaluators tried on the *inlined* expression before giving up:
+        # callables (expr_ast, canonical_text) -> True / False / predicate name / "!name" / None
+        self.funcs: List[Callable] = []
 
     def note(self) -> str:
         """Text for obligation details: tests the table could not map (explored both ways)."""
@@ -143,6 +146,20 @@ def evaluate(expr, env: dict, val: Dict[str, bool], atoms: Atoms, depth: int = 8
                         return None
                     r = val[name] if pol else (not val[name])
                     return not r
+    if atoms.funcs:
+        inl = inline(expr, env)
+        txt = unparse(inl)
+        for fn in atoms.funcs:
+            r = fn(inl, txt)
+            if r is None:
+                continue
+            if isinstance(r, bool):
+                return r
+            pol = not r.startswith("!")
+            name = r.lstrip("!")
+            if name not in val:
+                return None
+            return val[name] if pol else (not val[name])
     if isinstance(expr, ast.IfExp):
         c = evaluate(expr.test, env, val, atoms, depth - 1)
         if c is True:
